@@ -12,7 +12,9 @@
    Only statements, each closed by [exact <lemma>] and followed by Print Assumptions. *)
 From Coq Require Import List Arith Bool QArith Sorted Lia Permutation.
 From AIT Require Import C10.Model C10.Proofs C10.Proofs2 C10.Reexport.
+From AIT Require Import C10.ModelEDI C10.ProofsEDI.
 From AIT Require Import C10.ModelBG C10.ModelBU C10.ProofsBG C10.ProofsBU C10.ModelFG C10.ProofsFG.
+From AIT Require C02.Model C02.Spec C02.ModelWitness C04.Model C04.ProofsExec C19.ModelR C19.SpecR C19.ProofsR3 C10.ModelWit C10.ProofsWit Base.Mdp.
 From AIT Require C20.Model C20.Spec C20.Proofs C08.Model C08.Proofs C08.Proofs3 C18.Model C18.ProofsSafe
   C19.Model C19.Spec C19.ProofsTop C08.Spec.
 Import ListNotations.
@@ -79,6 +81,21 @@ Theorem extractDominated_no_UB : forall (A : Type) (dom : A -> A -> bool) (l : l
   exists arr k, extractDominated_idx dom l = Ok (arr, k) /\ length arr = length l /\ k <= length l.
 Proof. exact extractDominated_no_UB_lemma. Qed.
 Print Assumptions extractDominated_no_UB.
+
+(* --- extractDominatedIncremental (Prune.hpp), index form with the four-range juggling: the call of
+   extractDominated on the sub-range [newBegin, end), the backwards scan of the new entries (--target),
+   the backwards scan of the old ones (--old, iter_swap(target, --end), iter_swap(old, --oldEnd)) and the
+   final swap loop (--newSwap, oldSwap++).  Any array, any begin <= newBegin <= end inside it (empty old
+   range, empty new range, ...), any [dominates] — the documented precondition "the old range does not
+   dominate itself" is NOT needed for memory safety: no UB, no fuel exhaustion, same size, and the
+   returned iterators are ordered begin <= oldEnd <= mid <= end' <= end. *)
+Theorem extractDominatedIncremental_no_UB : forall (A : Type) (dom : A -> A -> bool) (arr : list A) begin newBegin end0,
+  begin <= newBegin -> newBegin <= end0 -> end0 <= length arr ->
+  exists arr' oldEnd mid end',
+    extractDominatedIncremental_idx dom arr begin newBegin end0 = Ok (arr', oldEnd, mid, end') /\
+    length arr' = length arr /\ begin <= oldEnd /\ oldEnd <= mid /\ mid <= end' /\ end' <= end0.
+Proof. exact extractDominatedIncremental_no_UB_lemma. Qed.
+Print Assumptions extractDominatedIncremental_no_UB.
 
 (* --- SARSOP witness / max lists (VEntry::observations; addWit, rmWit, addMax, rmMax) ----------
    Invariant of the list: v[0] = k with 1 <= k <= size (set by SARSOP where the VList is built).
@@ -273,6 +290,63 @@ Theorem mcts_action_in_range : forall A term disc rl iters g op tr g' a tr' sts,
 Proof. exact C19.ProofsTop.mcts_action_lemma. Qed.
 Print Assumptions mcts_action_in_range.
 
+(* --- C04: POMDP::Policy::sampleAction(id, o, h) performs only in-range accesses on a value function
+   whose entries are plans (its two operator[] are unchecked in the C++) ------------------------- *)
+Theorem policy_no_UB : forall (m : Base.Mdp.pomdp) (vf : list C02.Model.vlist) h id o prev cur,
+  nth_error vf h = Some prev -> nth_error vf (S h) = Some cur ->
+  Forall (C02.Spec.entry_is_plan m prev) cur -> id < length cur -> o < Base.Mdp.nO m ->
+  exists a newId, C04.Model.policy_step vf h id o = Some (a, newId) /\ newId < length prev.
+Proof. exact C04.ProofsExec.policy_step_in_range_lemma. Qed.
+Print Assumptions policy_no_UB.
+
+(* --- C19: POMCP and rPOMCP return an action index in range, keep A action nodes at the root (and
+   rPOMCP keeps its tree invariants, so the next call's graph_.children[a] is in range) ---------- *)
+Theorem pomcp_action_in_range : forall A term disc rl iters g op tr g' a tr' sts,
+  0 < A -> C19.Spec.trace_ok A tr -> C19.Spec.counts_ok g /\ C19.Spec.mean_ok g /\ C19.Spec.shape_ok A g ->
+  C19.Model.pomcp_op A term disc rl iters g op tr = (g', a, tr', sts) ->
+  a < A /\ length (C19.Model.acts g') = A.
+Proof. exact C19.ProofsTop.pomcp_action_lemma. Qed.
+Print Assumptions pomcp_action_in_range.
+
+Theorem rpomcp_action_in_range : forall A term disc k entropy plogp iters g op tr sb' g' a tr' sts,
+  0 < A -> C19.Spec.trace_ok A tr ->
+  C19.SpecR.rcounts_ok g /\ C19.SpecR.rmean_ok g /\ C19.SpecR.rshape_ok A g /\ C19.SpecR.rpart_ok g ->
+  C19.ModelR.r_op A term disc k entropy plogp iters g op tr = (sb', (g', a, tr', sts)) ->
+  a < A /\ length (C19.ModelR.racts g') = A /\
+  (C19.SpecR.rcounts_ok g' /\ C19.SpecR.rmean_ok g' /\ C19.SpecR.rshape_ok A g' /\ C19.SpecR.rpart_ok g').
+Proof. exact C19.ProofsR3.r_action_lemma. Qed.
+Print Assumptions rpomcp_action_in_range.
+
+(* --- C02: Witness agenda loop (Witness::operator(), addDefaultEntry, addVariations,
+   crossSumBestAtBelief), checked-access version C10/ModelWit.v: projs[o], vObs[o] (= skip),
+   projs[o][skip], projs[o][i], projs[o][0], the dereference of findBestAtPoint's result and its
+   observations[0].  On the unpruned projection lists Witness builds from any non-empty previous step,
+   for every oracle (= every behaviour of the witness LP), every fuel: never UB, and the result is
+   exactly the one of the value-level model C02/ModelWitness.v (about which C02's envelope theorems
+   are proved).  The invariant behind it is C02/ProofsWitness.v's [valid]: every link list handed to
+   addVariations has one in-range index per observation. *)
+Theorem witness_agenda_no_UB : forall (m : Base.Mdp.pomdp) (w : C02.Model.vlist)
+  (oracle : nat -> nat -> list Base.Qx.vec -> Base.Qx.vec -> option Base.Qx.vec) (fuel t a : nat), w <> [] ->
+  C10.ModelWit.wit_action_chk oracle fuel t a (Base.Mdp.nS (Base.Mdp.pm m)) (C04.Model.proj_row m w a) =
+    C10.ProofsWit.lift (C02.ModelWitness.wit_action oracle fuel t a (Base.Mdp.nS (Base.Mdp.pm m)) (C04.Model.proj_row m w a)) /\
+  C10.ModelWit.wit_action_chk oracle fuel t a (Base.Mdp.nS (Base.Mdp.pm m)) (C04.Model.proj_row m w a) <> UB.
+Proof. exact C10.ProofsWit.witness_agenda_no_UB_lemma. Qed.
+Print Assumptions witness_agenda_no_UB.
+
+(* one addVariations call: a link list that is [valid] for the projection row keeps every index in range *)
+Theorem witness_addVariations_no_UB : forall (row : list C02.Model.vlist),
+  (forall o i e, nth_error (nth o row []) i = Some e -> C02.Model.obs e = [i]) ->
+  forall e st, C02.ProofsWitness.valid row (C02.Model.obs e) ->
+  C10.ModelWit.variations_chk row e st = Ok (C02.ModelWitness.variations row e st).
+Proof. exact C10.ProofsWit.variations_chk_ok. Qed.
+Print Assumptions witness_addVariations_no_UB.
+
+(* an observation whose projection list is empty (e.g. pruned away) is outside the precondition: *)
+Theorem witness_empty_projection_refuted : forall oracle fuel t a S,
+  C10.ModelWit.wit_action_chk oracle fuel t a S [[]] = UB.
+Proof. exact C10.ProofsWit.witness_empty_projection_UB. Qed.
+Print Assumptions witness_empty_projection_refuted.
+
 (* ================= hypotheses are satisfiable ============================================== *)
 Example ex_updateTraces :
   q_wf 2 2 [[0%Q; 0%Q]; [0%Q; 0%Q]] /\ Forall (tr_in 2 2) [(0, 1, 1%Q); (1, 0, (1#4)%Q); (1, 1, (1#2)%Q)] /\
@@ -309,3 +383,18 @@ Proof. do 2 eexists. vm_compute. split; reflexivity. Qed.
 
 Example ex_beliefGenerator_invariant : forall (B D : Type) (P : params) (l : list B), bg_inv B D P (@init_st B D l).
 Proof. exact init_inv. Qed.
+
+Example ex_extractDominatedIncremental :
+  extractDominatedIncremental_idx (fun x y => y <=? x) [5; 1; 3; 2; 7; 3] 0 2 6 = Ok ([7; 1; 5; 2; 3; 3], 0, 1, 3).
+Proof. vm_compute. reflexivity. Qed.
+
+(* a two-observation projection row (2 + 1 entries, links = own positions), one witness found by the
+   oracle at the first query: the checked loop runs to the end and equals the value-level model *)
+Example ex_witness_agenda :
+  let row := [[C02.Model.Build_ventry [1%Q; 0%Q] 0 [0]; C02.Model.Build_ventry [0%Q; 1%Q] 0 [1]];
+              [C02.Model.Build_ventry [(1#2)%Q; (1#2)%Q] 0 [0]]] in
+  let oracle := fun (t a : nat) (rows : list Base.Qx.vec) (cand : Base.Qx.vec) =>
+                  match rows with [] => Some [0%Q; 1%Q] | _ => None end in
+  C10.ModelWit.wit_action_chk oracle 10 1 0 2 row = C10.ProofsWit.lift (C02.ModelWitness.wit_action oracle 10 1 0 2 row) /\
+  exists U, C10.ModelWit.wit_action_chk oracle 10 1 0 2 row = Ok U /\ length U = 1.
+Proof. split; [vm_compute; reflexivity|]. eexists. split; [vm_compute; reflexivity|reflexivity]. Qed.
